@@ -423,8 +423,8 @@ prop(
     "C07",
     level="other",
     design_ref="DESIGN.md section 3, C07",
-    groups=[(["./plugin/input/file"], r"^(\(\*offsetDB\)\.(save|parseLine|parseOptionalLine|parseStreams)|safeSubstring)$"),
-            (["./offset"], r"^\(\*Offset\)\.(Save|saveToTmp)$")],
+    groups=[(["./plugin/input/file"], r"^(\(\*offsetDB\)\.(save|parseLine|parseOptionalLine|parseStreams|parseOne)|safeSubstring)$"),
+            (["./offset"], r"^(\(\*Offset\)\.(Save|saveToTmp|Load)|NewOffset|\(\*yamlValue\)\.(Load|Save))$")],
     canaries=[("./plugin/input/file", "replay/C07/zz_replay_c07_test.go", "TestVerifReplayC07"),
               ("./plugin/input/file", "replay/C07/zz_empty_stream_test.go", "TestVerifOffsetsEmptyStreamNameRoundTrip")],
     script_canaries=["replay/C07/strace_save.sh"],
